@@ -16,6 +16,10 @@ func Gen(t *rapid.T) *Case {
 	if rapid.Bool().Draw(t, "hasAmbient") {
 		c.Ambient = rapid.IntRange(0, busmodel.AmbAll).Draw(t, "ambient")
 	}
+	if rapid.IntRange(0, 3).Draw(t, "multiType") != 0 {
+		// nested publishes wander over 2-4 distinct event types (routing shards)
+		c.Types = rapid.Permutation([]int{0, 1, 2, 3, 4, 5, 6}).Draw(t, "types")[:rapid.IntRange(2, 4).Draw(t, "ntypes")]
+	}
 	n := rapid.IntRange(1, 4).Draw(t, "nh")
 	gateCase := rapid.IntRange(0, 2).Draw(t, "gatecase") == 0
 	budget := 60 // bound on nested fan-out
